@@ -448,7 +448,19 @@ func TestC17(t *testing.T) {
 // built with -race) plus "no panic / fatal error"; answers are not compared here (part (a) does).
 func propC17b(t *rapid.T) {
 	useProfile(profSmall)
-	w := newWorld(t, 2, 20, nil)
+	// the database may fail now and then (commits only), so that error paths - which repair in-memory
+	// caches - run concurrently with everything else
+	ctl := xdb.NewCtl()
+	ctl.FailKinds = map[string]bool{"commit": true}
+	var addrClient, failedNewAddr, windows int64
+	ctl.FailFilter = func() bool {
+		// odd windows hit only the address client's commits, even windows anybody's
+		if atomic.LoadInt64(&windows)%2 == 1 {
+			return goid() == atomic.LoadInt64(&addrClient)
+		}
+		return true
+	}
+	w := newWorld(t, 2, 20, func(d mwdb.DB) mwdb.DB { return xdb.Wrap(d, ctl) })
 	phase := "stepped"
 	defer func() {
 		switch phase {
@@ -491,6 +503,7 @@ func propC17b(t *rapid.T) {
 	passes := []string{w.wallets[0].keys.Pass, w.wallets[1].keys.Pass}
 	dest, _ := massutil.NewAddressWitnessScriptHash(w.strangers[0][:], config.ChainParams)
 	stop := make(chan struct{})
+	stopFaults := make(chan struct{})
 	var wg sync.WaitGroup
 	var calls int64
 	panics := make(chan string, 8)
@@ -551,6 +564,45 @@ func propC17b(t *rapid.T) {
 		wg.Add(1)
 		go client(c * 4)
 	}
+	// the address client: asks for new addresses while every few milliseconds one commit fails
+	wg.Add(2)
+	go func() {
+		defer wg.Done()
+		defer func() {
+			if r := recover(); r != nil {
+				panics <- fmt.Sprintf("address client panicked: %v\n%s", r, debug.Stack())
+			}
+		}()
+		atomic.StoreInt64(&addrClient, goid())
+		for n := 0; n < 400; n++ {
+			select {
+			case <-stop:
+				return
+			default:
+			}
+			W.UseWallet(ids[n%2])
+			if _, err := W.NewAddress(massutil.AddressClassWitnessV0); err != nil && strings.Contains(err.Error(), "injected") {
+				atomic.AddInt64(&failedNewAddr, 1)
+			}
+			time.Sleep(300 * time.Microsecond)
+		}
+	}()
+	go func() {
+		defer wg.Done()
+		for n := int64(0); ; n++ {
+			select {
+			case <-stopFaults:
+				ctl.SetFail(0, 0, map[string]bool{"commit": true})
+				return
+			default:
+			}
+			// for the next millisecond or so the commits of the address client fail (every second window),
+			// otherwise the next commit of anybody
+			atomic.AddInt64(&windows, 1)
+			ctl.SetFail(ctl.Calls()+1+n%5, 40, map[string]bool{"commit": true})
+			time.Sleep(1500 * time.Microsecond)
+		}
+	}()
 	// the import / removal client
 	lateKeys, _ := sim.EntropyFor(rapid.SliceOfN(rapid.Byte(), 16, 16).Draw(t, "lateEntropy"), "pass9Xzz")
 	wg.Add(1)
@@ -594,7 +646,15 @@ func propC17b(t *rapid.T) {
 		w.env.Queue = nil
 		time.Sleep(time.Duration(rapid.IntRange(0, 3).Draw(t, "gapMs")) * time.Millisecond)
 	}
-	// let the follower drain, then stop the clients
+	// keep the clients busy for a while beside the follower and the worker
+	for dl := time.Now().Add(4 * time.Second); atomic.LoadInt64(&calls) < 400 && time.Now().Before(dl); {
+		time.Sleep(2 * time.Millisecond)
+	}
+	// storage works again; let the follower drain (a tip whose commit failed is announced again, as the
+	// next block would do), then stop the clients
+	close(stopFaults)
+	time.Sleep(3 * time.Millisecond)
+	H.OnBlockConnected(w.node.Tip().MsgBlock())
 	for dl := time.Now().Add(30 * time.Second); ; {
 		s, _ := W.SyncedTo()
 		if s == w.node.Height() || time.Now().After(dl) {
@@ -617,6 +677,8 @@ func propC17b(t *rapid.T) {
 	nc := atomic.LoadInt64(&calls)
 	c17.Case(hkey("race", strings.Join(w.journal, "\n")), nc > 50 && nb >= 4, "race-workload", fmt.Sprintf("api-calls>=%d", (nc/100)*100))
 	c17.Label("race-api-calls", int(nc))
+	c17.Label("race-injected-commit-failures", ctl.InjectedCount())
+	c17.Label("race-failed-new-address-calls", int(atomic.LoadInt64(&failedNewAddr)))
 }
 
 func TestC17Race(t *testing.T) {
